@@ -624,6 +624,16 @@ public:
     if (FD) {
       O["fn"] = stripTargs(qnameOf(FD));
       O["fk"] = keyOf(FD);
+      {
+        // parameter signature, spelled as in the callee's own "key", so that overloads resolve exactly
+        std::string sig;
+        for (const auto* P : FD->parameters()) {
+          if (!sig.empty())
+            sig += ", ";
+          sig += typeStr(P->getType());
+        }
+        O["fs"] = sig;
+      }
       if (FD->isNoReturn())
         O["nr"] = true;
       if (auto* MD = dyn_cast<CXXMethodDecl>(FD)) {
